@@ -659,7 +659,7 @@ func TestMetricLifecycle(t *testing.T) {
 		Property: "C15", Check: "metric_lifecycle",
 		Rule: "generated op lists (1-50 ops: Meter / create Int64Counter / Add / reader.Collect / provider ForceFlush / provider Shutdown / reader.Shutdown directly, with live or already-cancelled contexts, repeated) on a MeterProvider with 0-3 readers drawn from ManualReader, PeriodicReader(recording exporter, 1h) and PeriodicReader(recording exporter, 1ms); " +
 			"non-trivial = at least one reader, a provider Shutdown with a live context returned nil/ErrReaderShutdown and an Add / instrument creation / Collect follows it; distinct = distinct case encodings",
-		Quick: 3000, Thorough: 40000,
+		Quick: 4000, Thorough: 60000,
 		Gen: genMetricSeq, Run: runMetricSeq,
 		CaseTimeout: 30 * time.Second,
 	})
